@@ -405,7 +405,7 @@ func nameFreeSignature(sig *types.Signature) string {
 
 func extractClosureSignature(v *ssa.MakeClosure) string {
 	if fn, ok := v.Fn.(*ssa.Function); ok && fn != nil {
-		return fmt.Sprintf("closure:%s", fn.Signature.String())
+		return fmt.Sprintf("closure:%s", nameFreeSignature(fn.Signature))
 	}
 	return ""
 }
@@ -414,7 +414,7 @@ func extractFunctionSig(fn *ssa.Function) string {
 	// Fix: Detect anonymous/nested functions to provide stable signatures.
 	// This handles optimizations where simple closures become plain Functions.
 	if fn.Parent() != nil {
-		return fmt.Sprintf("closure:%s", fn.Signature.String())
+		return fmt.Sprintf("closure:%s", nameFreeSignature(fn.Signature))
 	}
 
 	if fn.Pkg != nil {
